@@ -1189,6 +1189,14 @@ class Idioms3(ast.NodeTransformer):
             ast.copy_location(loop, node)
             ast.fix_missing_locations(loop)
             return loop
+        # L.extend(f(v) for v in IT) -> for v in IT: L.append(f(v))
+        if isinstance(c, ast.Call) and isinstance(c.func, ast.Attribute) \
+                and c.func.attr == "extend" and len(c.args) == 1 and \
+                not c.keywords and isinstance(
+                    c.args[0], (ast.ListComp, ast.GeneratorExp)):
+            loop = self._comp_to_append_loop(c.func.value, c.args[0], node)
+            if loop is not None:
+                return loop
         # np.putmask(x, m, 0) / np.place(x, m, 0) /
         # np.copyto(x, 0, where=m) with a scalar literal -> x[m] = 0
         if isinstance(c, ast.Call) and norm(c.func) in (
@@ -1253,6 +1261,48 @@ class Idioms3(ast.NodeTransformer):
             keys.append(_SubstNames(m).visit(clone(node.key)))
             vals.append(_SubstNames(m).visit(clone(node.value)))
         return ast.copy_location(ast.Dict(keys=keys, values=vals), node)
+
+    @staticmethod
+    def _comp_to_append_loop(target, comp, node):
+        """`for v in IT: [if c:] target.append(elt)` for a one-generator
+        comprehension that does not mention the list it extends"""
+        if not (isinstance(target, ast.Name) and isinstance(
+                comp, (ast.ListComp, ast.GeneratorExp)) and len(
+                comp.generators) == 1 and not comp.generators[0].is_async):
+            return None
+        if any(isinstance(n, ast.Name) and n.id == target.id
+               for n in ast.walk(comp)):
+            return None
+        if any(isinstance(n, (ast.NamedExpr, ast.Lambda, ast.ListComp,
+                              ast.GeneratorExp, ast.DictComp, ast.SetComp))
+               and n is not comp for n in ast.walk(comp)):
+            return None
+        g = comp.generators[0]
+        body = [ast.Expr(value=ast.Call(func=ast.Attribute(
+            value=ast.Name(id=target.id, ctx=ast.Load()), attr="append",
+            ctx=ast.Load()), args=[comp.elt], keywords=[]))]
+        if g.ifs:
+            body = [ast.If(test=g.ifs[0] if len(g.ifs) == 1 else ast.BoolOp(
+                op=ast.And(), values=list(g.ifs)), body=body, orelse=[])]
+        tgt = clone(g.target)
+        for n_ in ast.walk(tgt):
+            if isinstance(n_, (ast.Name, ast.Tuple, ast.List)):
+                n_.ctx = ast.Store()
+        loop = ast.For(target=tgt, iter=g.iter, body=body, orelse=[],
+                       type_comment=None)
+        ast.copy_location(loop, node)
+        ast.fix_missing_locations(loop)
+        return loop
+
+    def visit_AugAssign(self, node):
+        self.generic_visit(node)
+        # L += [f(v) for v in IT] -> for v in IT: L.append(f(v))
+        if isinstance(node.op, ast.Add):
+            loop = self._comp_to_append_loop(node.target, node.value, node) \
+                if isinstance(node.value, ast.ListComp) else None
+            if loop is not None:
+                return loop
+        return node
 
     def visit_List(self, node):
         self.generic_visit(node)
